@@ -1,6 +1,6 @@
 (* Proofs/C03_Examples.v — readings of the signature predicates on the regenerated constants, and
    concrete runs showing that the hypotheses of the C03 theorems can be met (non-vacuity). *)
-Require Import OV.Base.Bytes OV.Base.Py OV.Base.C06_WrapShape OV.Base.Insp_Struct.
+Require Import OV.Base.Bytes OV.Base.Py OV.Base.Str OV.Base.C06_WrapShape OV.Base.Insp_Struct.
 Require Import OV.Gen.Insp_Consts OV.Gen.C06_Wrapper OV.Model.Insp_Engine OV.Model.Insp_All OV.Model.Insp_Vmdk.
 Require Import OV.Model.Wrap OV.Model.C03.
 Require Import OV.Proofs.Insp_All OV.Proofs.C03_Total OV.Proofs.C03_Sig OV.Proofs.C03_Wrap OV.Proofs.C03_Stable OV.Proofs.C03_Props.
@@ -27,7 +27,10 @@ Proof. cbn [sigb]. unfold long_enough. cbn [init_regions forallb snd rs_off rs_l
 Lemma sig_reading_luks b : sigb F_luks b = beq (btake 6 b) [76;85;75;83;186;190].                 (* LUKS\xba\xbe *)
 Proof. reflexivity. Qed.
 Lemma sig_reading_vmdk b : sigb F_vmdk b =
-  prefixb [75;68;77;86] b || ((64 <=? blen b) && forallb ascii_text (btake 64 b)).               (* KDMV, or the text zone F1 *)
+  prefixb [75;68;77;86] b ||
+  ((64 <=? blen b) && forallb ascii_text (btake 64 b) &&
+   occursb [99;114;101;97;116;101;116;121;112;101;61;34] (lower_ascii (OV.Model.C01_Vmdk.upto_nul b))).
+  (* KDMV; or text-descriptor mode, inside zone F1: 64 text bytes and the createtype token before the first NUL *)
 Proof. reflexivity. Qed.
 
 (* ---- runs *)
@@ -71,3 +74,35 @@ Qed.
 
 Example ex_static_allowed : forallb is_static (allowed_fmts [fmt_name F_qcow2; fmt_name F_vhd; fmt_name F_iso; fmt_name F_raw]) = true.
 Proof. reflexivity. Qed.
+
+(* ---- the zone hypotheses and the abort hypothesis can be met *)
+Require Import OV.Model.C01_Vhdx OV.Proofs.C01_Vhdx_Witness OV.Proofs.C01_Vmdk_Witness OV.Proofs.C03_All OV.Proofs.C03_Abort.
+
+Example ex_vhdx_outside : in_zone F_vhdx wf_image = false.
+Proof. destruct wf_image_outside as [H1 H2]. cbn [in_zone]. rewrite H1, H2. reflexivity. Qed.
+Example ex_vmdk_outside : in_zone F_vmdk w_sparse = false.
+Proof. destruct w_sparse_outside as [H1 H2]. cbn [in_zone]. rewrite H1, H2. reflexivity. Qed.
+
+Example ex_outside_zones : outside_zones [fmt_name F_vhdx; fmt_name F_qcow2; fmt_name F_raw] wf_image.
+Proof.
+  intros f Hf. unfold allowed_fmts in Hf. apply filter_In in Hf. destruct Hf as [_ Hf].
+  destruct f; try reflexivity; try exact ex_vhdx_outside; vm_compute in Hf; discriminate Hf.
+Qed.
+
+(* expected_format = qcow2 on 512 zero bytes: the qcow2 inspector is complete without matching after the first chunk *)
+Example ex_abort : first_abort istate eat complete cmatch (init F_qcow2) [zeros 512; zeros 10] = Some (0%nat, AbMismatch).
+Proof. vm_compute. reflexivity. Qed.
+
+(* a run in which an inspector RAISES and is frozen by the wrapper: KDMV with version 9 ("Unsupported format
+   version": ImageFormatError from VMDKInspector.post_process); the read goes through (no expected format), the vmdk
+   slot is in the errored set, and format after close is still vmdk (formats does not drop errored inspectors) *)
+Definition ex_frozen : list bytes := [VMDK_MAGIC ++ [9; 0; 0; 0] ++ zeros 504; zeros 100].
+Example ex_frozen_run :
+  exists w, read_and_closed None [] ex_frozen w /\ cw_format_name w = Ok (Some (fmt_name F_vmdk)) /\
+            s_err (slot_closed ex_frozen F_vmdk) = true /\ In (slot_closed ex_frozen F_vmdk) (w_slots w).
+Proof.
+  destruct (no_expectation_reads_through [] ex_frozen) as (w1 & H1).
+  assert (Hrc : read_and_closed None [] ex_frozen (cw_close w1)) by (destruct H1 as (tr & un & H1); exists w1, tr, un; auto).
+  exists (cw_close w1). split; [exact Hrc|]. rewrite (read_and_closed_is _ _ _ _ Hrc).
+  split; [vm_compute; reflexivity|]. split; [vm_compute; reflexivity|]. apply closed_slot_in. reflexivity.
+Qed.
